@@ -235,15 +235,28 @@ def write_chunk(outfile, name, data):
     outfile.write(data)
 
 
+def _check_time(msg):
+    if not isinstance(msg.time, Integral):
+        raise ValueError('message time must be int in MIDI file')
+    if msg.time < 0:
+        raise ValueError('message time must be non-negative in MIDI file')
+
+
+def _checked_times(track):
+    # The times have to be checked before fix_end_of_track() adds the
+    # time of an end_of_track message in the middle of the track to the
+    # next message, where a negative one would go unnoticed.
+    for msg in track:
+        _check_time(msg)
+        yield msg
+
+
 def write_track(outfile, track):
     data = bytearray()
 
     running_status_byte = None
-    for msg in fix_end_of_track(track):
-        if not isinstance(msg.time, Integral):
-            raise ValueError('message time must be int in MIDI file')
-        if msg.time < 0:
-            raise ValueError('message time must be non-negative in MIDI file')
+    for msg in fix_end_of_track(_checked_times(track)):
+        _check_time(msg)
 
         if msg.is_realtime:
             raise ValueError('realtime messages are not allowed in MIDI files')
